@@ -60,7 +60,30 @@ func VerifC06Flat() {
 	n := vParam("N", 3)
 	m := vParam("M", n)
 	how := [...]int{0, 1, 2, 3}[vChoice(vParam("WRAPS", 2))]
-	a, b := vNumArray(n), vNumArray(m)
+	var a, b jsonArray
+	if vParam("EXACT", 0) != 1 {
+		a, b = vNumArray(n), vNumArray(m)
+	} else {
+		// exactly N and M elements (the longer arrays without paying for all shorter ones)
+		a, b = make(jsonArray, n), make(jsonArray, m)
+		for i := range a {
+			if vParam("CONCA", 0) == 1 {
+				continue
+			}
+			a[i] = vNum()
+		}
+		if vParam("CONCA", 0) == 1 {
+			// a is one of a few fixed repeat patterns; every relation of b's elements to
+			// them (and to each other) stays symbolic
+			pat := [...][5]float64{{1, 2, 3, 4, 5}, {1, 1, 2, 2, 1}, {1, 2, 1, 2, 1}, {1, 1, 1, 1, 1}}[vChoice(4)]
+			for i := range a {
+				a[i] = jsonNumber(pat[i%5])
+			}
+		}
+		for i := range b {
+			b[i] = vNum()
+		}
+	}
 	if vKnown("hash.alias") {
 		vAssumeNoHashAlias(a, b)
 	}
